@@ -3,8 +3,11 @@
 package eni
 
 import (
+	"context"
+
 	podENITypes "github.com/AliyunContainerService/terway/pkg/apis/network.alibabacloud.com/v1beta1"
 	"github.com/AliyunContainerService/terway/types/daemon"
+	"golang.org/x/time/rate"
 	"k8s.io/client-go/tools/record"
 	"sigs.k8s.io/controller-runtime/pkg/client"
 	"sigs.k8s.io/controller-runtime/pkg/reconcile"
@@ -25,3 +28,12 @@ func VerifNewNodeReconcile(c client.Client, rec record.EventRecorder, nodeName s
 func VerifNewRemoteIPResource(trunk daemon.ENI, podENI podENITypes.PodENI) *RemoteIPResource {
 	return &RemoteIPResource{trunkENI: trunk, podENI: podENI}
 }
+
+// VerifSetRateLimit replaces the per-ENI cloud-call rate limit (10/min) used by Locals created afterwards.
+func VerifSetRateLimit(l rate.Limit) { rateLimit = l }
+
+// VerifSyncPool runs one pass of the pool balancer.
+func VerifSyncPool(ctx context.Context, m *Manager) { m.syncPool(ctx) }
+
+// VerifSync runs one periodic cloud sync of a Local.
+func (l *Local) VerifSync() { l.sync() }
